@@ -1130,6 +1130,22 @@ class Ctx:
     def def_uf(self, name, args, concrete=None, nout=None, index=None) -> Sym:
         """application of an uninterpreted real function name(args) (optionally component `index`)"""
         fname = name if index is None else f"{name}_{index}"
+        key = ("uf", fname, tuple(pkey(Sym.of(x).re) for x in args))
+        hit = self.memo.get(key)
+        if hit is not None:
+            return hit
+        r = self._def_uf(name, args, concrete, nout, index)
+        self.memo[key] = r
+        return r
+
+    def seed_uf(self, name, args, value, index=None):
+        """assume f(args) == value by rewriting: later applications of f to syntactically equal arguments return value"""
+        fname = name if index is None else f"{name}_{index}"
+        key = ("uf", fname, tuple(pkey(Sym.of(x).re) for x in args))
+        self.memo[key] = Sym.of(value)
+
+    def _def_uf(self, name, args, concrete=None, nout=None, index=None) -> Sym:
+        fname = name if index is None else f"{name}_{index}"
         zargs = [Sym.of(x).re.z3() for x in args]
         f = z3.Function(fname, *([z3.RealSort()] * (len(zargs) + 1)))
 
@@ -1204,6 +1220,28 @@ class Ctx:
 
 
 CTX = Ctx()
+
+
+class AssumptionFailed(Exception):
+    """a harness-level assumption made inside run() does not hold at a concrete point"""
+
+
+def assume(f):
+    """harness assumption made in the middle of a run (e.g. about values produced by a stub): becomes part of the path
+    condition; at a concrete point a failing assumption invalidates the point"""
+    if isinstance(f, (bool, np.bool_)):
+        if not f:
+            if CTX.active:
+                raise Infeasible()
+            raise AssumptionFailed()
+        return
+    f = SBool.of(f)
+    if f.k == "const":
+        return assume(f.a)
+    if not CTX.active:
+        raise Realised("symbolic assumption outside an exploration")
+    CTX.pc.append(f)
+    CTX.feas.add(f.z3())
 
 
 class PathResult:
